@@ -73,6 +73,7 @@ def h_capture(sx):
                 # (e.g. a module logging at import time): loggers cache that answer until some setLevel() call
                 root.setLevel(logging.ERROR)
                 logging.getLogger("harness").isEnabledFor(logging.WARNING)
+            states["user-level"] = root.level
         if name == "before_scenario":
             sid = w._label(args[0])
             if p.get("switch_off_before_second") and order and sid not in order and not toggled:
@@ -178,6 +179,15 @@ def h_capture(sx):
     # 4. root logger handlers / level at scenario end are as before the scenario (user handler kept, no stale capture handler)
     from behave.log_capture import LoggingCapture
     # the first setup_capture() is run_model's own; every later one belongs to a scenario and is paired with its teardown
+    # seen from user hooks: whenever a later scenario starts, and when the run is over (also after Ctrl-C / context.abort()
+    # in a step), the root logger is the application's own again
+    seen = [("before_scenario " + sid_, states[sid_]) for sid_ in order[1:] if sid_ in states] + ([("after the run", end_state)] if order else [])      # (no scenario started: the property says nothing)
+    for where_, (hs_, lvl_) in seen:
+        sx.check(not any(isinstance(h, LoggingCapture) for h in hs_), "C18.no-stale-capture-handler-after-scenario",
+                 detail=lambda m, where_=where_, hs_=hs_: dict(det(m), at=where_, handlers=[type(h).__name__ for h in hs_]))
+        sx.check(user_handler in hs_, "C18.user-log-handlers-as-before-scenario", detail=lambda m, where_=where_: dict(det(m), at=where_))
+        sx.check(lvl_ == states.get("user-level", lvl_), "C18.root-log-level-as-before-scenario",
+                 detail=lambda m, where_=where_, lvl_=lvl_: dict(det(m), at=where_, level=lvl_, level_set_by_application=states.get("user-level")))
     for sid, ((hs_before, lvl_before), (hs_after, lvl_after)) in enumerate(zip(befores[1:], afters)):
         ub = [h for h in hs_before if not isinstance(h, LoggingCapture)]
         ua = [h for h in hs_after if not isinstance(h, LoggingCapture)]
